@@ -159,7 +159,9 @@ def crafted_implicit_new_conflict(sh, d, case):
     import transaction
     from zv import objs
     from ZODB.POSException import ConflictError
-    db = ZODB.DB(ZODB.MappingStorage.MappingStorage())
+    from zv import recfs
+    kind = case.get('kind', 'mapping')
+    db = ZODB.DB(mkstorage(kind, d, recfs.install()))
     with db.transaction() as c:
         c.root()['a'] = objs.Cell('a0')
     tm1, tm2 = transaction.TransactionManager(), transaction.TransactionManager()
@@ -174,11 +176,11 @@ def crafted_implicit_new_conflict(sh, d, case):
     tm2.commit()
     try:
         tm1.commit()
-        sh.violation('c11:mapping:conflicting-commit-accepted', {'crafted': True}, case)
+        sh.violation('c11:%s:conflicting-commit-accepted' % kind, {'crafted': True}, case)
     except ConflictError:
         tm1.abort()
     if n._p_oid is not None or n._p_jar is not None:
-        sh.violation('c11:mapping:implicitly-new-object-keeps-oid-and-jar-after-store-phase-failure',
+        sh.violation('c11:%s:implicitly-new-object-keeps-oid-and-jar-after-store-phase-failure' % kind,
                      {'crafted': True, 'oid': n._p_oid, 'jar': n._p_jar is not None}, case)
     sh.count('shadow_comparisons')
     c1.close()
